@@ -163,6 +163,7 @@ def run(ctx, model=None):
             check_case(ctx, g, rng, model)
     for k in range(10 if ctx.quick() else 150):
         check_case(ctx, gen.tiny_reach_game(rng), rng, model)
+        check_case(ctx, gen.parallel_dead_game(rng), rng, model)
     for k in range(25 if ctx.quick() else 300):
         check_case(ctx, gen.decimal_sum_game(rng), rng, model)
     N = 200 if ctx.quick() else 5000
